@@ -1,0 +1,20 @@
+//! Yield points for the deterministic simulator under `/verif`.
+//!
+//! Compiled only with the `verif-hooks` cargo feature, which nothing in this
+//! workspace enables. Without an installed hook function every point is a no-op.
+
+use std::sync::OnceLock;
+
+static HOOK: OnceLock<fn(&'static str)> = OnceLock::new();
+
+/// Installs the function called at every `verif_point!`. Only the first call has an effect.
+pub fn install(hook: fn(&'static str)) {
+    let _ = HOOK.set(hook);
+}
+
+#[inline]
+pub(crate) fn point(site: &'static str) {
+    if let Some(hook) = HOOK.get() {
+        hook(site)
+    }
+}
